@@ -193,6 +193,6 @@ Section Closed.
   Qed.
 
   (* ALL operator programs: every expression built from the shipped primitives with the composition operators *)
-  Theorem expr_closed : forall x, closed s (eval R G s x).
+  Theorem expr_closed : forall x, closedg s (eval R G s x).
   Proof. intros x. apply comp_closed. exact prim_closed. Qed.
 End Closed.
